@@ -10,6 +10,14 @@ Lemma C15_pin_connectivity : connect_as_modelled = true /\ op_distance_v1 == op_
 Proof. split; [reflexivity | split; vm_compute; reflexivity]. Qed.
 Print Assumptions C15_pin_connectivity.
 
+(* pin: the table-level reader groups atoms into residues by (chain, number, insertion code) in both formats *)
+Lemma C15_pin_group_keys :
+  v2_group_key_pdb = ["chainID"; "resSeq"; "iCode"]%string /\
+  v2_group_key_cif_auth = ["auth_asym_id"; "auth_seq_id"; "pdbx_PDB_ins_code"]%string /\
+  v2_group_key_cif_label = ["label_asym_id"; "label_seq_id"; "pdbx_PDB_ins_code"]%string.
+Proof. repeat split; reflexivity. Qed.
+Print Assumptions C15_pin_group_keys.
+
 (* pin: both PDB readers slice the same columns for the fields they share *)
 Lemma C15_pin_same_columns :
   forallb (fun kv => match find (fun kv2 => String.eqb (fst kv) (fst kv2)) pdb_slices with
@@ -18,7 +26,8 @@ Lemma C15_pin_same_columns :
 Proof. vm_compute. reflexivity. Qed.
 Print Assumptions C15_pin_same_columns.
 
-From RV Require Import Base.PyStr Model.Reader1 Model.PdbLine Proofs.C09Main Proofs.C15Main Proofs.C15Written.
+From Coq Require Import Permutation.
+From RV Require Import Base.PyStr Model.Reader1 Model.PdbLine Model.Group2 Proofs.C09Main Proofs.C15Main Proofs.C15Written Proofs.C15Group Proofs.C15Segments.
 Local Close Scope Q_scope.
 
 (* on every line the residue-level reader decodes, the table-level reader reports the same chain, number, insertion
@@ -46,3 +55,46 @@ Theorem C15_written_files : forall l l1, (forall a, In a l -> row_ok a = true) -
     decode_pdb 1 (write_pdb l) = Ok l1 -> Forall2 agree l1 (map (fun a => expected (ar_model a) a) l).
 Proof. exact both_readers_on_written_file. Qed.
 Print Assumptions C15_written_files.
+
+(* residues of the table-level reader (groupby on the key), for EVERY table, contiguous or not: each residue is all
+   rows carrying the key of its first row, in table order; every row's residue is listed; no key is listed twice; the
+   residues partition the table *)
+Theorem C15_v2_residues : forall rows,
+    (forall g, In g (residues_v2 rows) -> exists h, In h rows /\ g = filter (key2_eqb h) rows) /\
+    (forall x, In x rows -> In (filter (key2_eqb x) rows) (residues_v2 rows)) /\
+    ForallOrdPairs (fun g h => forall x y, In x g -> In y h -> rkey2 x <> rkey2 y) (residues_v2 rows) /\
+    Permutation (concat (residues_v2 rows)) rows.
+Proof. exact residues_v2_spec. Qed.
+Print Assumptions C15_v2_residues.
+
+(* both readers report the same residues, in the same order, each with the same atoms in the same order, on every regular
+   PDB file whose residues are contiguous and in which no (chain, number, insertion code) key is shared by two identities
+   of the residue-level reader (one residue name per key, one model, chain ids distinct after stripping) *)
+Theorem C15_same_residues : forall lines m l, forallb regular lines = true -> decode_pdb m lines = Ok l ->
+    let rows := combine l (parse_lines m lines) in
+    (forall x y, In x rows -> In y rows -> key2_eqb (snd x) (snd y) = true -> same_residue (fst x) (fst y) = true) ->
+    contiguous (fun x y => key2_eqb (snd x) (snd y)) rows ->
+    exists G, Reader1.group l = map (map fst) G /\ residues_v2 (parse_lines m lines) = map (map snd) G /\
+              concat G = rows /\ Forall (Forall (fun x => agree (fst x) (snd x))) G.
+Proof. exact file_same_residues. Qed.
+Print Assumptions C15_same_residues.
+
+(* connected segments of a chain (tertiary_v2.connected_residues), for every O3'-P test `conn`: the residues in order are cut
+   exactly where the test fails (never elsewhere), inside a piece every residue is connected to the next, nothing is
+   reordered, and only one-residue pieces are dropped *)
+Theorem C15_segments : forall (R : Type) (conn : R -> R -> bool) rs,
+    segments conn rs = filter long (runs_go conn [] rs) /\ concat (runs_go conn [] rs) = rs /\
+    Forall (linked conn) (runs_go conn [] rs) /\ cuts_ok conn (runs_go conn [] rs) /\
+    Forall (fun s => 2 <= length s /\ linked conn s) (segments conn rs).
+Proof. exact @segments_spec. Qed.
+Print Assumptions C15_segments.
+
+(* the hypotheses of C15_same_residues hold on a written three-residue file (one residue with an insertion code) *)
+Theorem C15_same_residues_nonvacuous :
+  forallb regular example_file = true /\
+  exists l, decode_pdb 1 example_file = Ok l /\ length (Reader1.group l) = 3 /\
+    let rows := combine l (parse_lines 1 example_file) in
+    (forall x y, In x rows -> In y rows -> key2_eqb (snd x) (snd y) = true -> same_residue (fst x) (fst y) = true) /\
+    contiguous (fun x y => key2_eqb (snd x) (snd y)) rows.
+Proof. exact same_residues_nonvacuous. Qed.
+Print Assumptions C15_same_residues_nonvacuous.
